@@ -1,0 +1,25 @@
+//go:build !verif
+
+// Package verifhook exposes observation points for the verification harness.
+// Without the build tag "verif" every function is an empty stub.
+package verifhook
+
+const (
+	SiteWalkSelection = iota
+	SiteIntrospectionDepthSpread
+	SiteOverlapFindConflict
+	SiteOverlapFieldsAndFragment
+	SiteOverlapBetweenFragments
+	SiteNoFragmentCycles
+	SiteSubscriptionTopFields
+	NumSites
+)
+
+func Lex(kind int, start int) {}
+func Next(count int)          {}
+func LimitHit(count int)      {}
+func Step(site int)           {}
+func Gate()                   {}
+
+// Enabled reports whether the hooks are compiled in.
+const Enabled = false
